@@ -36,7 +36,10 @@ def _constant_tensors(m):
     out = []
 
     def walk(g):
+        inputs_ = {i.name for i in g.input}
         for t in g.initializer:
+            if t.name in inputs_:
+                continue  # an overridable default, not a constant: left to the semantic comparison
             out.append(nh_.to_array(t))
         for n in g.node:
             for a in n.attribute:
